@@ -62,6 +62,33 @@
 #include "QXmppMixInfoItem.h"
 #include "QXmppMixConfigItem.h"
 #include "QXmppMixParticipantItem.h"
+#include "QXmppE2eeExtension.h"
+#include "QXmppFutureUtils_p.h"
+
+// a stand-in for an end-to-end encryption manager on the sending side (C17): like the OMEMO manager it hands the message back with its
+// sensitive fields still set (the client's encrypted send path must write the public part only) and marks it with XEP-0380 only when
+// `markAlways` is set or the message has a body; the "ciphertext" is an application element
+class FakeE2ee : public QXmppE2eeExtension
+{
+public:
+    bool markAlways = false;
+    QXmppTask<MessageEncryptResult> encryptMessage(QXmppMessage &&m, const std::optional<QXmppSendStanzaParams> &) override
+    {
+        auto out = std::make_unique<QXmppMessage>(std::move(m));
+        if (markAlways || !out->body().isEmpty()) out->setEncryptionMethod(QXmpp::Omemo2);
+        QXmppElementList ext = out->extensions();
+        QDomDocument d;
+        d.setContent(QByteArray("<encrypted xmlns='urn:example:fake-e2ee'><payload>Y2lwaGVydGV4dA==</payload></encrypted>"), true);
+        ext << QXmppElement(d.documentElement());
+        out->setExtensions(ext);
+        return QXmpp::Private::makeReadyTask<MessageEncryptResult>(std::move(out));
+    }
+    QXmppTask<MessageDecryptResult> decryptMessage(QXmppMessage &&) override { return QXmpp::Private::makeReadyTask<MessageDecryptResult>(NotEncrypted {}); }
+    QXmppTask<IqEncryptResult> encryptIq(QXmppIq &&, const std::optional<QXmppSendStanzaParams> &) override { return QXmpp::Private::makeReadyTask<IqEncryptResult>(QXmppError { u"not supported"_s, {} }); }
+    QXmppTask<IqDecryptResult> decryptIq(const QDomElement &) override { return QXmpp::Private::makeReadyTask<IqDecryptResult>(NotEncrypted {}); }
+    bool isEncrypted(const QDomElement &) override { return false; }
+    bool isEncrypted(const QXmppMessage &) override { return false; }
+};
 #include "QXmppGeolocItem.h"
 #include "QXmppUserTuneItem.h"
 #include "QXmppVCardIq.h"
@@ -631,7 +658,11 @@ struct Case {
         QObject::connect(cl, &QXmppClient::iqReceived, &c.ctx, [=](const QXmppIq &iq) { sig("iqReceived", { { "id", iq.id() }, { "type", int(iq.type()) } }); });
         for (auto v : st["managers"].toArray()) {
             const QString m = v.toString();
-            if (m == u"carbons2") cl->addNewExtension<QXmppCarbonManagerV2>();
+            if (m == u"fakee2ee" || m == u"fakee2ee-mark") {
+                auto *e = new FakeE2ee;
+                e->markAlways = m.endsWith(u"mark");
+                cl->setEncryptionExtension(e);
+            } else if (m == u"carbons2") cl->addNewExtension<QXmppCarbonManagerV2>();
             else if (m == u"carbons1") {
                 auto *cm = cl->addNewExtension<QXmppCarbonManager>();
                 QObject::connect(cm, &QXmppCarbonManager::messageReceived, &c.ctx, [=](const QXmppMessage &mm) {
@@ -1034,6 +1065,16 @@ struct Case {
             }, timeout);
             if (!ok) J({ { "ev", "await_failed" }, { "step", idx }, { "tag", u"signal:"_s + name }, { "timeout", true } });
             return ok;
+        }
+        if (op == u"sendSensitive") {
+            // the application hands a complete message to the client's encrypted send path
+            QDomDocument d;
+            if (d.setContent(st["xml"].toString().toUtf8(), true)) {
+                QXmppMessage m;
+                m.parse(d.documentElement());
+                cli(st).client->sendSensitive(std::move(m));
+            }
+            return true;
         }
         if (op == u"normalize") {
             // what the library itself makes of a message element parsed on its own
